@@ -17,7 +17,7 @@ func keyA(name string) []gen.Key { return []gen.Key{{Name: name}} }
 func coreSpaces() []gen.Space {
 	atoms := gen.List(
 		gen.Field("a"), gen.Field("b"), gen.QField("é"), gen.QField(""), gen.Current(),
-		gen.LitJSON("1"), gen.LitJSON(`{"a":{"b":1}}`), gen.LitJSON("[1,[2]]"), gen.LitJSON("null"), gen.Raw("a"),
+		gen.LitJSON("1"), gen.LitJSON(`{"a":{"b":1}}`), gen.LitJSON("[1,[2]]"), gen.LitJSON("null"), gen.Raw("a'b"),
 		gen.Chain(nil, gen.StIndex(0)), gen.Chain(nil, gen.StIndex(-1)),
 	)
 	steps := []gen.Step{gen.StField("a"), gen.StField("b"), gen.StQField("é"), gen.StIndex(0), gen.StIndex(1), gen.StIndex(-1), gen.StIndex(2), gen.StIndex(-3)}
